@@ -393,7 +393,7 @@ def frame_case(rng, ndates, width):
 
 
 def generate(rng, tier):
-    n = 20 if tier == 'quick' else 400
+    n = 15 if tier == 'quick' else 400
     for nd in (3, 5, 25):
         for _ in range(max(3, n // 5)):
             yield index_case(rng, nd)
